@@ -27,8 +27,13 @@ Record unt := U { u_name : nat; u_id : nat }.
 (* what a non-group declaration matches on:
      LName n     one unit named n            (EDI segment name; csv2/fixedlength2 header ^n, no footer)
      LRows k     any k units                 (csv2/fixedlength2 "rows": k)
-     LHF h f     a unit named h up to and including the first unit named f (header/footer) *)
-Inductive leaf := LName (n : nat) | LRows (k : nat) | LHF (h f : nat).
+     LHF h f     a unit named h up to and including the first unit named f (header/footer)
+     LPat h f    header / footer given as arbitrary regular expressions: the harness numbers the
+                 patterns of a case and evaluates each of them on each raw line with Go's regexp
+                 (not through the library); a unit's name is then the bit mask of the patterns
+                 its line matches.  LPat h None: header only (a one-line record);
+                 LPat h (Some f): from a line matching pattern h to the first line matching f *)
+Inductive leaf := LName (n : nat) | LRows (k : nat) | LHF (h f : nat) | LPat (h : nat) (f : option nat).
 
 (* max: None = unbounded (Go: maths.MaxIntValue) *)
 Inductive decl :=
@@ -76,6 +81,12 @@ Fixpoint find_footer (f : nat) (us : list unt) (i : nat) : option nat :=
 (* number of units an instance of the leaf takes from the front of the unprocessed units;
    None = no match.  Probing (createIDR=false) and matching are the same function of the
    unprocessed lines: read-ahead only fills linesBuf. *)
+Fixpoint find_footer_bit (f : nat) (us : list unt) (i : nat) : option nat :=
+  match us with
+  | [] => None
+  | u :: r => if Nat.testbit (u_name u) f then Some (S i) else find_footer_bit f r (S i)
+  end.
+
 Definition flat_leaf (l : leaf) (us : list unt) : option nat :=
   match l with
   | LName n => match us with u :: _ => if u_name u =? n then Some 1 else None | [] => None end
@@ -84,6 +95,13 @@ Definition flat_leaf (l : leaf) (us : list unt) : option nat :=
                | u :: _ => if u_name u =? h then find_footer f us 0 else None
                | [] => None
                end
+  | LPat h f => match us with
+                | u :: _ =>
+                    if Nat.testbit (u_name u) h
+                    then match f with None => Some 1 | Some f' => find_footer_bit f' us 0 end
+                    else None
+                | [] => None
+                end
   end.
 
 (* EDI: SegDecl.matchSegName on a non-group declaration: d.Name == segName; one segment *)
